@@ -20,21 +20,21 @@ import (
 const trzszPath = "github.com/trzsz/trzsz-go/trzsz"
 
 type Program struct {
-	Dir    string
-	GOOS   string
-	GOARCH string
-	Fset   *token.FileSet
-	Pkgs   []*packages.Package
-	Pkg    *packages.Package // the trzsz package
-	Prog   *ssa.Program
-	SPkg   *ssa.Package
-	Funcs  map[string]*ssa.Function // "name", "Recv.name", "name$1"
-	AllFns []*ssa.Function          // all functions with bodies in trzsz (incl. anonymous)
-	decls  map[string]*ast.FuncDecl
-	Blocks int
-	Instrs int
+	Dir           string
+	GOOS          string
+	GOARCH        string
+	Fset          *token.FileSet
+	Pkgs          []*packages.Package
+	Pkg           *packages.Package // the trzsz package
+	Prog          *ssa.Program
+	SPkg          *ssa.Package
+	Funcs         map[string]*ssa.Function // "name", "Recv.name", "name$1"
+	AllFns        []*ssa.Function          // all functions with bodies in trzsz (incl. anonymous)
+	decls         map[string]*ast.FuncDecl
+	Blocks        int
+	Instrs        int
 	ConstBranches int // branches on a constant condition whose dead side was pruned
-	cgCache *CG
+	cgCache       *CG
 }
 
 func repoDir() string {
